@@ -38,7 +38,13 @@ TEXT = {
   ref="DESIGN.md §5 C19"),
 }
 
-READY = ["C01", "C02", "C03"]
+TEXT["C04"] = dict(
+  technique="deterministic simulation with crash-point enumeration: a seeded block-delivery workload runs on an in-memory store with a commit log, then every prefix of its database commits is a crash point (plus crashes inside recovery); recovered state checked against the reference world",
+  level="For each sampled workload (extensions, side chains, reorganisations, invalid blocks, flushes, restarts, every UTXO-cache size) every database-commit prefix is enumerated as a crash point: reopen must succeed, the recovered tip must have been announced as active with its activating commit among the survivors, the UTXO set and spend journals must equal the fold of that tip, acknowledged blocks must still be known and byte-identical, and re-delivering the world must converge to the uninterrupted run's result; a seeded 40% crash again inside the recovery's own commits.",
+  note="Crash granularity is the database commit on the memdb stub (atomic, prefix-durable store assumed - that assumption is property C05's subject, decided by storesim on real ffldb). Known finding KF-C04-1 (stored-but-unconnected best block not activated after reopen) is reported as KNOWN-FINDING and additionally checked to converge after one more block.",
+  ref="DESIGN.md §5 C04")
+
+READY = ["C01", "C02", "C03", "C04", "C19"]
 
 def main():
     verif = os.path.dirname(os.path.abspath(__file__))
